@@ -8,8 +8,8 @@ From ELA Require Import model.C33_Withdraw.
 Import ListNotations.
 Local Open Scope Z_scope.
 
-(* The 24 fixed public keys used by harness/cmd/c33 (compressed P-256 points of
-   the private keys sha256("verif-c33-key-<k>"), k = 1..24); the harness sends
+(* The 64 fixed public keys used by harness/cmd/c33 (compressed P-256 points of
+   the private keys sha256("verif-c33-key-<k>"), k = 1..64); the harness sends
    its own derivation as a [CKeyTab] case so a difference is a mismatch. *)
 Definition keytab : list (list Z) := [
   [2;134;20;107;56;73;35;177;77;205;4;217;80;4;137;125;219;52;227;153;16;66;15;211;141;119;12;140;34;200;172;24;128];
@@ -35,11 +35,51 @@ Definition keytab : list (list Z) := [
   [3;158;186;173;149;56;31;146;97;185;89;41;158;219;44;114;201;84;205;127;41;222;100;33;236;219;125;42;157;162;157;97;141];
   [2;1;90;127;96;29;128;119;111;223;10;72;50;114;50;53;10;241;163;73;146;153;68;104;94;250;114;197;73;96;169;140;210];
   [2;243;27;206;242;227;79;115;49;176;242;198;179;186;29;176;26;183;50;238;166;1;140;67;74;156;199;82;75;228;46;91;198];
-  [3;91;189;165;197;78;11;153;137;58;41;137;221;179;237;171;76;117;34;69;143;230;170;250;26;59;129;87;29;149;46;158;123]
+  [3;91;189;165;197;78;11;153;137;58;41;137;221;179;237;171;76;117;34;69;143;230;170;250;26;59;129;87;29;149;46;158;123];
+  [2;34;131;82;36;107;64;66;27;120;209;111;5;42;228;248;91;165;78;65;43;18;132;150;35;32;235;102;181;48;16;249;101];
+  [3;162;37;251;102;220;121;139;127;38;62;249;224;188;239;30;29;170;49;137;11;165;162;149;152;21;254;245;234;42;148;163;195];
+  [3;40;211;3;226;192;69;180;173;40;73;183;39;243;55;12;167;9;250;219;143;204;214;45;135;200;75;40;54;38;119;125;193];
+  [2;243;106;4;23;182;247;5;213;39;34;31;244;242;143;214;126;154;81;88;69;217;62;75;237;217;188;99;146;226;215;180;163];
+  [3;179;209;193;68;142;123;179;144;51;149;63;174;111;177;55;191;188;17;147;154;7;209;101;145;110;246;207;111;62;196;40;33];
+  [2;229;148;22;155;165;93;86;153;191;58;118;144;227;109;20;94;112;51;102;24;66;108;129;8;104;32;122;228;180;83;42;113];
+  [2;255;228;192;97;180;159;201;38;175;137;182;163;96;187;3;225;32;226;83;132;16;203;69;81;235;222;207;226;137;61;191;6];
+  [3;214;156;232;80;102;144;192;68;177;221;205;36;225;100;228;140;16;55;69;69;161;140;190;45;123;237;60;159;66;30;150;145];
+  [3;64;183;68;29;251;99;93;142;81;55;64;141;21;68;145;243;253;181;4;196;21;11;63;158;207;174;217;163;254;193;249;174];
+  [2;39;149;5;138;248;34;79;84;8;243;168;15;133;184;84;91;90;244;138;237;92;21;219;202;137;6;33;226;59;88;58;156];
+  [2;112;143;98;101;134;23;1;94;123;166;229;151;35;6;33;32;88;114;237;87;217;143;18;179;75;174;217;80;47;57;111;201];
+  [2;37;194;85;5;166;63;238;73;203;82;35;242;200;155;244;251;44;187;137;85;130;25;59;108;255;237;234;193;127;32;110;66];
+  [2;173;163;81;247;17;54;242;85;45;107;46;158;27;196;98;198;242;81;240;172;63;142;241;107;224;81;10;246;87;151;122;247];
+  [3;163;42;141;241;28;28;224;134;160;251;54;236;42;180;197;99;238;118;210;8;46;62;41;178;170;143;115;170;43;86;132;56];
+  [2;120;212;159;241;61;217;174;132;166;226;153;129;67;210;204;17;254;47;215;162;203;182;128;106;205;122;221;255;194;2;43;163];
+  [3;255;5;113;86;78;225;210;104;114;109;21;171;125;203;186;196;23;139;208;48;65;177;215;156;158;239;84;50;182;234;43;3];
+  [2;12;88;98;42;131;11;28;68;100;129;241;155;115;163;119;173;21;123;146;74;155;86;189;61;159;191;36;60;227;129;171;90];
+  [3;249;244;178;197;241;51;163;122;184;220;234;231;112;144;209;148;50;249;179;135;242;10;46;20;223;208;223;180;24;186;150;54];
+  [2;179;252;9;252;92;94;48;176;176;255;174;44;197;246;131;125;32;104;222;101;185;42;142;179;0;149;81;150;202;147;1;79];
+  [2;90;114;28;152;139;32;40;152;7;218;150;79;167;11;191;59;142;208;227;241;74;58;41;62;1;176;253;133;172;60;157;36];
+  [2;238;248;145;185;60;146;107;167;8;202;134;165;116;172;168;11;216;216;75;253;225;2;88;71;198;9;56;61;249;49;126;121];
+  [2;117;95;137;64;75;85;179;107;201;127;2;234;151;128;74;229;99;185;178;248;123;82;197;228;114;214;185;126;195;71;190;73];
+  [2;27;227;93;95;163;14;232;209;18;212;243;191;166;171;45;221;80;139;21;168;186;192;18;23;17;187;99;36;93;142;51;18];
+  [2;91;107;102;165;93;34;251;143;250;6;238;44;153;68;230;195;74;8;105;75;138;12;190;187;11;181;180;117;61;137;205;45];
+  [3;216;16;104;93;81;68;142;112;68;93;231;24;132;63;9;255;78;240;159;249;110;228;170;170;60;200;147;64;83;47;62;115];
+  [2;121;150;215;233;184;122;76;53;16;220;202;110;250;119;27;221;81;206;38;243;34;70;157;40;85;241;167;222;11;202;94;252];
+  [3;171;227;24;173;211;181;24;199;240;190;144;225;115;8;70;36;10;134;61;5;216;69;165;31;59;45;252;193;224;37;246;99];
+  [3;14;199;52;238;72;64;177;138;230;197;104;140;31;40;22;176;171;214;249;57;71;159;107;21;127;121;243;131;107;40;212;0];
+  [3;22;15;186;42;183;149;252;68;107;240;11;181;69;124;74;145;71;72;109;45;203;221;39;134;12;15;231;166;217;81;217;253];
+  [2;160;97;182;250;167;211;97;52;189;155;209;34;109;62;132;21;206;94;88;112;211;115;235;203;228;183;171;66;23;170;134;188];
+  [2;67;102;141;168;187;169;211;145;252;26;161;254;210;228;100;102;177;119;30;111;139;70;137;6;122;13;138;131;206;53;172;226];
+  [3;115;236;163;144;136;98;229;235;20;210;186;237;72;28;242;8;122;169;64;150;206;177;85;159;92;42;69;166;105;212;194;83];
+  [3;238;60;113;179;182;12;204;33;8;249;157;43;187;191;175;235;139;77;21;60;67;148;3;67;232;145;211;178;182;237;17;125];
+  [2;100;119;227;37;14;26;95;150;130;146;137;1;64;92;20;170;115;184;70;41;98;116;0;156;98;23;226;190;71;229;98;187];
+  [3;218;141;62;105;190;11;181;92;161;146;84;166;161;27;244;59;236;241;251;83;19;235;135;72;74;90;152;126;33;108;53;33];
+  [3;16;30;52;97;163;183;68;133;112;165;162;179;171;51;127;95;84;253;186;21;28;101;149;78;1;48;141;25;116;169;203;86];
+  [3;76;116;154;195;25;204;179;182;19;92;110;125;173;85;188;184;161;100;209;222;45;191;102;86;163;117;202;225;197;114;214;188];
+  [2;174;247;239;153;116;143;222;201;127;98;49;236;165;12;2;102;13;78;181;69;241;29;122;75;60;53;155;180;145;126;6;181];
+  [3;15;206;81;197;225;233;130;55;68;252;30;30;116;198;110;73;179;137;161;16;60;163;125;169;135;182;168;43;231;144;67;215];
+  [3;199;23;174;163;31;177;113;89;48;105;92;106;61;133;141;164;39;66;126;158;3;231;103;39;191;31;18;246;182;216;247;153]
 ].
 
 Definition keybytes (k : Z) : list Z :=
-  if (1 <=? k) && (k <=? 24) then nth (Z.to_nat (k - 1)) keytab []
+  if (1 <=? k) && (k <=? 64) then nth (Z.to_nat (k - 1)) keytab []
   else repeat (k mod 256) 33.   (* ids outside the table: 33 equal bytes (not a curve point; never an arbiter) *)
 
 (* Compact encodings (a numeral costs ~0.4 ms to parse, so cases are kept short):
@@ -138,17 +178,17 @@ Inductive case :=
          (t : txS) (ps : Z) (out : Z)
   (* all signer lists of length <= 3 over [dom], enumerated as the harness does;
      [tab]: sorted index list -> Schnorr script; [outs]: outcome per list; ids base, base+1, ... *)
-| CSweep (base : N) (h mc : Z) (dom : list Z) (tab : list (list Z * list Z)) (outs : list Z)
+| CSweep (base : N) (h mc : Z) (cc : list Z) (dom : list Z) (tab : list (list Z * list Z)) (outs : list Z)
 | CHist (id : N) (cf : list Z) (v2rb : bool) (txs : list txS) (ps : Z) (steps : list step).
 
 Definition twelve : list Z := [1;2;3;4;5;6;7;8;9;10;11;12].
 
 Definition sweep_cfg (h mc : Z) : list Z :=
-  [h; 4294967295; 4294967295; 4294967295; 0; 100; 0; 0; mc].
+  [h; 4294967295; 4294967295; 4294967295; 100; 100; 0; 0; mc].   (* freeze = restriction = 100: below it the legacy path runs *)
 
-Definition sweep_tx (sg : list Z) (aggv : option (list Z)) : txS :=
+Definition sweep_tx (cc : list Z) (sg : list Z) (aggv : option (list Z)) : txS :=
   TX 2 [] [] [75] (match aggv with Some _ => [CAgg] | None => [] end) sg
-     (map (fun i => i + 1) sg) aggv.
+     (map (fun i => Z.abs (nth (Z.to_nat i) cc 0)) sg) aggv.
 
 Fixpoint insert (x : Z) (l : list Z) : list Z :=
   match l with [] => [x] | y :: r => if x <=? y then x :: l else y :: insert x r end.
@@ -182,13 +222,13 @@ Fixpoint run_steps (c : cfg) (e : env) (v2rb : bool) (txs : list txS) (st : list
 
 Definition progs_of (t : txS) : list (list Z) := programs (tx_of t).
 
-Fixpoint sweep_bad (c : cfg) (e : env) (tab : list (list Z * list Z)) (k : N)
+Fixpoint sweep_bad (c : cfg) (e : env) (cc : list Z) (tab : list (list Z * list Z)) (k : N)
          (ls : list (list Z)) (outs : list Z) : list N :=
   match ls, outs with
   | [], [] => []
   | sg :: ls', o :: outs' =>
-      (if check_one c e (sweep_tx sg (lookup tab (sort sg))) o then [] else [k])
-      ++ sweep_bad c e tab (N.succ k) ls' outs'
+      (if check_one c e (sweep_tx cc sg (lookup tab (sort sg))) o then [] else [k])
+      ++ sweep_bad c e cc tab (N.succ k) ls' outs'
   | _, _ => [k]   (* lengths differ *)
   end.
 
@@ -198,8 +238,8 @@ Definition check (c : case) : list N :=
   | CCheck id cf ar crc cc ccn ccm st t ps out =>
       if (psum (progs_of t) =? ps) && check_one (mk_cfg cf) (mk_env ar crc cc ccn ccm st) t out
       then [] else [id]
-  | CSweep base h mc dom tab outs =>
-      sweep_bad (mk_cfg (sweep_cfg h mc)) (mk_env None None twelve 12 8 []) tab base (lists_upto3 dom) outs
+  | CSweep base h mc cc dom tab outs =>
+      sweep_bad (mk_cfg (sweep_cfg h mc)) (mk_env None None cc (zlen cc) 8 []) cc tab base (lists_upto3 dom) outs
   | CHist id cf v2rb txs ps steps =>
       if (psum (flat_map progs_of txs) =? ps)
          && run_steps (mk_cfg cf) (mk_env None None twelve 12 8 []) v2rb txs [] steps
